@@ -331,10 +331,25 @@ func (s *sched) classify() {
 // ---------------------------------------------------------------------------
 // public primitives
 
+// FreePanic, when set, receives the panic value of any goroutine started by Go outside Run
+// (free-running mode) instead of letting it take the process down.
+var FreePanic func(v any)
+
 // Go starts fn in a new scheduler-controlled thread (or a plain goroutine outside Run).
 func Go(fn func()) {
 	s := cur
 	if s == nil {
+		if h := FreePanic; h != nil {
+			go func() {
+				defer func() {
+					if r := recover(); r != nil {
+						h(r)
+					}
+				}()
+				fn()
+			}()
+			return
+		}
 		go fn()
 		return
 	}
